@@ -78,7 +78,8 @@ def kitchen_sink(rng, gated: set, idx: int) -> dict:
                 exported.append(f"C{counter}")
         for style in rng.sample(list(sn.DOC_SNIPPETS), 2):
             counter += 1
-            parts.append(sn.DOC_SNIPPETS[style].replace("{n}", str(counter)) + "\n\n")
+            doc_src = sn.DOC_SNIPPETS[style].replace("{n}", str(counter))
+            parts.append(doc_src + "\n\n")
         # docstring type expressions as people write them (every style; the configured style decides which are read)
         for style in rng.sample(["numpydoc", "google", "rest"], 2):
             counter += 1
